@@ -7,7 +7,7 @@
 //! cold sleep and reset ("configuration-validity bits"), and a lying mode for C18.
 //! Not modelled: RF, GFSK, real timing of packets (the harness decides when and how an operation ends).
 
-use crate::world::Env;
+use crate::world::{ChipRf, Env};
 
 // opcodes (datasheet table 11-1 .. 11-5)
 pub const OP_GET_STATUS: u8 = 0xC0;
@@ -231,6 +231,14 @@ pub struct Chip126x {
     pub tx_log: Vec<TxRecord>,
     /// number of cold wake-ups / resets seen (evidence)
     pub cold_starts: u32,
+    /// last SetModulationParams (sf, bw code, cr code, ldro), SetPacketParams (6 bytes), SetTxParams power, SetPaConfig
+    mod_params: [u8; 4],
+    pkt_params: [u8; 6],
+    tx_power: u8,
+    pa_config: [u8; 4],
+    /// what the chip was programmed with at each SetTx / SetRx (full-stack configuration of the MAC world)
+    pub tx_rf_log: Vec<(ChipRf, Vec<u8>)>,
+    pub rx_rf_log: Vec<ChipRf>,
 }
 
 impl Chip126x {
@@ -258,6 +266,12 @@ impl Chip126x {
             lie: None,
             tx_log: vec![],
             cold_starts: 0,
+            mod_params: [0; 4],
+            pkt_params: [0; 6],
+            tx_power: 0,
+            pa_config: [0; 4],
+            tx_rf_log: vec![],
+            rx_rf_log: vec![],
         };
         c.power_on_defaults();
         c
@@ -292,6 +306,50 @@ impl Chip126x {
         self.rx_start = 0;
         self.pkt_status = [0; 3];
         self.cmd_status = 1;
+        self.mod_params = [0; 4];
+        self.pkt_params = [0; 6];
+        self.tx_power = 0;
+        self.pa_config = [0; 4];
+    }
+
+    /// Decode what the chip is programmed with right now (datasheet 13.4.5, 13.4.6, 13.1.14, table 13-21).
+    pub fn rf_now(&self) -> ChipRf {
+        let bw_khz = match self.mod_params[1] {
+            0x04 => 125,
+            0x05 => 250,
+            0x06 => 500,
+            0x03 => 62,
+            0x0A => 41,
+            0x02 => 31,
+            0x09 => 20,
+            0x01 => 15,
+            0x08 => 10,
+            0x00 => 7,
+            _ => 0,
+        };
+        // SetPaConfig (paDutyCycle, hpMax, deviceSel) rows of table 13-21: (max dBm, SetTxParams power at max)
+        let row = match (self.pa_config[2], self.pa_config[0], self.pa_config[1]) {
+            (1, 0x01, 0x00) => Some((10i16, 13i16)),
+            (1, 0x04, 0x00) => Some((14, 14)),
+            (1, 0x06, 0x00) => Some((15, 14)),
+            (0, 0x02, 0x02) => Some((14, 22)),
+            (0, 0x02, 0x03) => Some((17, 22)),
+            (0, 0x03, 0x05) => Some((20, 22)),
+            (0, 0x04, 0x07) => Some((22, 22)),
+            _ => None,
+        };
+        let p = self.tx_power as i8 as i16;
+        ChipRf {
+            freq_hz: ((self.freq_raw as u64 * 32_000_000) >> 25) as u32,
+            sf: self.mod_params[0],
+            bw_khz,
+            cr: 4 + self.mod_params[2],
+            iq_inverted: self.pkt_params[5] != 0,
+            crc_on: self.pkt_params[4] != 0,
+            preamble: u16::from_be_bytes([self.pkt_params[0], self.pkt_params[1]]),
+            // powers below the row's anchor lower SetTxParams one for one; above it the PA saturates at the row's maximum
+            power_dbm: row.map(|(max, at_max)| (max - (at_max - p)).min(max)),
+        }
     }
 
     pub fn reset(&mut self, env: &mut Env) {
@@ -556,7 +614,8 @@ impl Chip126x {
             OP_SET_FS => self.mode = Mode::Fs,
             OP_SET_TX => {
                 self.check_configured(env, "tx", V_PKT_TYPE | V_SYNC | V_BUF_BASE | V_MOD | V_PKT | V_FREQ | V_PA | V_TX_PARAMS | V_DIO_IRQ | V_PAYLOAD, IRQ_TX_DONE);
-                let payload = (0..self.payload_len).map(|i| self.buf[self.tx_base.wrapping_add(i) as usize]).collect();
+                let payload: Vec<u8> = (0..self.payload_len).map(|i| self.buf[self.tx_base.wrapping_add(i) as usize]).collect();
+                self.tx_rf_log.push((self.rf_now(), payload.clone()));
                 self.tx_log.push(TxRecord { freq_raw: self.freq_raw, payload });
                 self.mode = Mode::Tx;
                 busy = 120;
@@ -564,6 +623,7 @@ impl Chip126x {
             OP_SET_RX => {
                 self.check_configured(env, "rx", V_PKT_TYPE | V_SYNC | V_BUF_BASE | V_MOD | V_PKT | V_FREQ | V_DIO_IRQ, IRQ_RX_DONE | IRQ_TIMEOUT);
                 let t = u32::from_be_bytes([0, g(0), g(1), g(2)]);
+                self.rx_rf_log.push(self.rf_now());
                 self.mode = Mode::Rx(match t {
                     0 => RxKind::Single,
                     0xFF_FFFF => RxKind::Continuous,
@@ -575,6 +635,7 @@ impl Chip126x {
                 self.check_configured(env, "rx", V_PKT_TYPE | V_SYNC | V_BUF_BASE | V_MOD | V_PKT | V_FREQ | V_DIO_IRQ, IRQ_RX_DONE);
                 let rx = u32::from_be_bytes([0, g(0), g(1), g(2)]) as u64;
                 let sl = u32::from_be_bytes([0, g(3), g(4), g(5)]) as u64;
+                self.rx_rf_log.push(self.rf_now());
                 // periods are in steps of 15.625 us
                 self.mode = Mode::Rx(RxKind::Duty { t0: now, rx_us: rx * 15_625 / 1000, sleep_us: sl * 15_625 / 1000, hold_until: 0 });
                 busy = 100;
@@ -593,17 +654,27 @@ impl Chip126x {
                 self.freq_raw = u32::from_be_bytes([g(0), g(1), g(2), g(3)]);
                 self.valid |= V_FREQ;
             }
-            OP_SET_TX_PARAMS => self.valid |= V_TX_PARAMS,
-            OP_SET_PA_CONFIG => self.valid |= V_PA,
+            OP_SET_TX_PARAMS => {
+                self.tx_power = g(0);
+                self.valid |= V_TX_PARAMS;
+            }
+            OP_SET_PA_CONFIG => {
+                self.pa_config = [g(0), g(1), g(2), g(3)];
+                self.valid |= V_PA;
+            }
             OP_SET_CAD_PARAMS => self.valid |= V_CAD_PARAMS,
             OP_SET_BUF_BASE => {
                 self.tx_base = g(0);
                 self.rx_base = g(1);
                 self.valid |= V_BUF_BASE;
             }
-            OP_SET_MOD_PARAMS => self.valid |= V_MOD,
+            OP_SET_MOD_PARAMS => {
+                self.mod_params = [g(0), g(1), g(2), g(3)];
+                self.valid |= V_MOD;
+            }
             OP_SET_PKT_PARAMS => {
                 // LoRa: preamble(2), header type, payload length, crc, invert IQ
+                self.pkt_params = [g(0), g(1), g(2), g(3), g(4), g(5)];
                 self.payload_len = g(3);
                 self.regs[0x0702] = g(3); // payload length register (read back by the driver in implicit-header mode)
                 self.regs[0x0704] = (self.regs[0x0704] & !0x04) | if g(2) != 0 { 0x04 } else { 0 };
